@@ -344,6 +344,11 @@ impl C07 {
                 d.step()
             };
             model.apply(st.k, &st.op);
+            if st.outcome.is_panic() && matches!(st.op, Op::Append { .. }) {
+                // an entry that cannot even be written is the shortest failed round trip
+                acc.violation("C07/through-files/append-panicked", case, json!({"history": d.history_json(200), "call": st.op.to_json(), "outcome": st.outcome.to_json()}));
+                return;
+            }
             if st.outcome.is_io_err() {
                 acc.inconclusive(format!("I/O error from a live call: {:?}", st.outcome));
                 return;
